@@ -17,7 +17,7 @@ RULE = ("enumerated: for each chosen zone (quick: the 25 odd zones + seed-rotate
         "tzinfo=<the same tzinfo object>, fold) and (b) by the oracle with datetime.datetime(*fields, tzinfo=zoneinfo.ZoneInfo(name) | datetime.timezone(offset), fold); "
         "binary operators (six comparisons, hash equality, subtraction) on pairs: same zone across the transition / both folds, the same instant rendered in another "
         "zone, UTC and fixed offsets, far-apart values, naive/aware mixes, in five operand modes (pendulum-pendulum, pendulum-native and native-pendulum with the same "
-        "tzinfo object or with the stdlib tzinfo); astimezone to pendulum and stdlib zones; replace; constructors; Dates over all month shapes x leap/common/century "
+        "tzinfo object or with the stdlib tzinfo); astimezone to pendulum and stdlib zones; replace; constructors; time()/timetz() incl. fold and tzinfo identity on named zones, fixed offsets and naive values; Dates over all month shapes x leap/common/century "
         "years; Times incl. tzinfo; the generated override table against the real MRO. non-trivial = distinct (fn, args).")
 EXHAUSTIVE = {"quick": False, "thorough": True}
 TRUSTED = ["CPython's attribute lookup: a name that no pendulum class of the MRO binds is answered by the native C slot on the same fields "
@@ -194,6 +194,10 @@ FIXED = [0, 3600, -3600, 19800, 20700, -12600, 86340, -86340, 45 * 60, 14 * 3600
 MONTH_SHAPES = [(y, m) for y in (1, 4, 100, 400, 1900, 1999, 2000, 2023, 2024, 2100, 9996, 9999) for m in range(1, 13)]
 
 
+W_PARIS_0230_OCT = (63518428800 + 9000) * T.MEG        # 2013-10-27T02:30:00 wall (repeated in Europe/Paris)
+W_PARIS_0330_MAR = (63500284800 + 12600) * T.MEG       # 2013-03-31T03:30:00 wall
+
+
 def _ok_wall(W):
     return T.US_DAY * 3 < W < T.MAX_WALL - T.US_DAY * 3
 
@@ -260,6 +264,8 @@ def cases(tier, seed):
         W = rnd.randrange(T.US_DAY * 3, T.MAX_WALL - T.US_DAY * 3)
         f = rnd.randrange(2)
         out.append({"stream": "dt-unary-random", "fn": "dt_unary", "args": [spec, W, f]})
+        if i % 2 == 0:
+            out.append({"stream": "dt-timetz", "fn": "dt_timetz", "args": [spec, W, f]})
         spec2 = [zs[rnd.randrange(len(zs))], FIXED[rnd.randrange(len(FIXED))], None, spec][rnd.randrange(4)]
         # mostly near (within two days), sometimes centuries apart (float round trip of the Interval length)
         W2 = W + rnd.randrange(-2 * T.US_DAY, 2 * T.US_DAY) if i % 4 else rnd.randrange(T.US_DAY * 3, T.MAX_WALL - T.US_DAY * 3)
@@ -267,6 +273,12 @@ def cases(tier, seed):
             out.append({"stream": "dt-binary-random", "fn": "dt_binary", "args": [spec, W, f, spec2, W2, rnd.randrange(2), rnd.randrange(5)]})
         if spec is not None and spec2 is not None:
             out.append({"stream": "dt-astimezone", "fn": "dt_astz", "args": [spec, W, f, spec2, i % 2]})
+    # the witnesses of the repaired findings time-drops-fold / timetz-returns-native-time, as ordinary cases (every seed, both tiers)
+    for spec in ("Europe/Paris", 3600, None):
+        for W in (W_PARIS_0230_OCT, W_PARIS_0330_MAR):
+            for f in (0, 1):
+                out.append({"stream": "dt-time-witness", "fn": "dt_unary", "args": [spec, W, f]})
+                out.append({"stream": "dt-time-witness", "fn": "dt_timetz", "args": [spec, W, f]})
     # values at the edges of the supported range
     for W in (0, 1, T.US_DAY - 1, T.US_DAY, T.MAX_WALL, T.MAX_WALL - T.US_DAY):
         for spec in (None, "UTC", 3600, -3600, "Pacific/Kiritimati", "America/New_York"):
@@ -568,7 +580,9 @@ def model_result(c, backend, outs):
                     cur.append(ch)
             parts.append(cur)
             strings = ["".join(chr(ch) if 0 <= ch < 256 else "?" for ch in part) for part in parts]
-        (_, ordn, wd, iwd, iy, iw, idd, off, U, hk, y, mo, d, hh, mi, ss, yday, uflag, uy, umo, ud, uh, umi, us_, uwd, uyd, dy, dm, dd, th, tm, ts, tus) = o
+        if len(o) != 34:
+            return o          # an accessor without a model ([-2]) or a result of the wrong type ([-3]): reported as a difference
+        (_, ordn, wd, iwd, iy, iw, idd, off, U, hk, y, mo, d, hh, mi, ss, yday, uflag, uy, umo, ud, uh, umi, us_, uwd, uyd, dy, dm, dd, th, tm, ts, tus, tf) = o
         if spec is None:
             # naive timestamp: local time is UTC in the staged environment
             ts_hex = ((a[1] - T.EPOCH_US) / T.MEG).hex() if _naive_ts_safe(a[1]) else None
@@ -577,7 +591,7 @@ def model_result(c, backend, outs):
         return {"toordinal": ordn, "weekday": wd, "isoweekday": iwd, "isocalendar": [iy, iw, idd],
                 "utcoffset": None if off == NONE else off * T.MEG, "timestamp": ts_hex, "timetuple8": [y, mo, d, hh, mi, ss, wd, yday],
                 "utctimetuple": [uy, umo, ud, uh, umi, us_, uwd, uyd, 0] if uflag == 0 else ["E", "OverflowError"],
-                "date": ["Date", dy, dm, dd], "time": ["Time", th, tm, ts, tus, 0],
+                "date": ["Date", dy, dm, dd], "time": ["Time", th, tm, ts, tus, tf],
                 # datetime_hash: hash(timedelta(days=toordinal, seconds, microseconds) - utcoffset(fold=0)): the wall value counted from ordinal 0
                 "hash": None if spec is None else hash(_dt.timedelta(microseconds=hk + T.US_DAY)), "type": "DateTime",
                 "strings": strings}
@@ -844,6 +858,12 @@ def deviations(c, r):
                 dev.append(f"op {nme}: {g} but native gives {e}")
         if r[2][0] not in ("Duration",):
             dev.append(f"sub:type Time - time returns {r[2]}")
+        else:
+            # Time - time is the exact difference of the two times of day, microseconds included (Time.diff, repaired by f98403b)
+            k1 = ((h1 * 60 + mi1) * 60 + s1) * T.MEG + us1
+            k2 = ((h2 * 60 + mi2) * 60 + s2) * T.MEG + us2
+            if (r[2][1] * 86400 + r[2][2]) * T.MEG + r[2][3] != k1 - k2:
+                dev.append(f"sub:value Time - time gives {r[2][1:]} but the times of day differ by {k1 - k2} us")
     elif fn == "mro":
         pass
     return dev
@@ -915,7 +935,7 @@ def known(c, backend, r):
 LEVEL_TEXT = ("Machine-checked Coq theorems over a dispatch model: Gen/Classes.v (computed from the class bodies' ast and the C3 MRO on every run) says which class answers each "
               "standard accessor; every override of a native attribute has a hand model (every_override_is_modelled, fail closed for new overrides; pinned sources); inherited "
               "accessors are the native function on the same fields by definition (trusted CPython inheritance); overridden ones are proved equal to the native function "
-              "(date/time fields, astimezone, __str__ = isoformat(' ')), equality/hash with the native object, subtraction length (exact when the float round trip is, with "
+              "(date()/time()/timetz() fields incl. fold and the tzinfo object, astimezone, __str__ = isoformat(' ')), equality/hash with the native object, subtraction length (exact when the float round trip is, with "
               "refutations for the same-tzinfo offset 'fix', for native operands on skipped wall times and beyond 2^53 us), inter-zone order = instant order for every well-formed "
               "zone, with the same-zone wall-order counterexample proved. Tied to /repo by ~10^5 differential cases per run against native objects in both backends.")
 DESIGN_REF = "DESIGN.md section 4 C11"
